@@ -620,7 +620,7 @@ def run_real(fw, jobs, timeout=3000):
         raise RuntimeError(f"sess_real({fw}) failed: " + p.stderr[-2000:])
     obs = json.loads(p.stdout)["obs"]
     for j, o in zip(jobs, obs):
-        for sc_, lines in zip(j["scripts"], o):
+        for sc_, lines in zip(j.get("scripts", []), o):
             if len(lines) != len(sc_):
                 raise RuntimeError(f"sess_real({fw}): harness error on script {sc_}: {lines[:1]}")
     return obs
